@@ -36,6 +36,11 @@ def build_alphabet(darsia):
         J.update_params(mass_coeff=mass, diffusion_coeff=diff, dim=2)
         return J(IMG_A.copy(), RHS_A.copy(), h=h)
 
+    def jac_arrays(h):
+        # a Jacobi object with array-valued (heterogeneous) coefficients - the caller's own arrays - and a grid spacing
+        JA = shared("JARR", lambda: darsia.Jacobi(maxiter=5, mass_coeff=COEF_M, diffusion_coeff=COEF_D, dim=2))
+        return JA(IMG_A.copy(), RHS_A.copy(), h=h)
+
     def jac3d(mass, diff, h):
         # the same shared Jacobi object, now in 3-D with otherwise identical parameters
         J = shared("J", lambda: darsia.Jacobi(maxiter=5, mass_coeff=1.0, diffusion_coeff=1.0, dim=2))
@@ -281,6 +286,8 @@ def build_alphabet(darsia):
         "mg_upd_A": lambda: mg_update_arrays("A"),
         "mg_upd_B": lambda: mg_update_arrays("B"),
         "mg_upd_scalar": mg_update_scalar,
+        "jac_arrays_h05": lambda: jac_arrays(0.5),
+        "jac_arrays_h1": lambda: jac_arrays(1.0),
         # independent solver objects on a grid with the same voxel counts and another physical size
         "w_newton_other_domain": lambda: wass("newton_direct", 0, vs=(2.0, 0.5)),
         "w_newton_outputs_modified": lambda: wass("newton_direct", 0, scribble=True),
@@ -301,12 +308,13 @@ LETTERS = [
     "mg2_small", "mg2_regular", "w_bregman_L2_A", "w_bregman_L2_B", "w_bregman_L2fr_A", "w_bregman_L2fr_B", "w_bregman_amg_custom",
     "w_bregman_big_A", "w_bregman_big_B", "w_bregman_big_aa_A", "w_bregman_big_aa_B", "w_newton_big_A", "w_newton_big_B",
     "tvd_obj_A", "tvd_obj_B", "tvd_obj_x0", "w_bregman_amg_multilevel_A", "w_bregman_amg_multilevel_B", "w_newton_cg_multilevel_A",
-    "mg_upd_scalar", "sb_caller_arrays_A", "sb_caller_arrays_B", "w_newton_other_domain", "w_bregman_other_domain", "w_newton_outputs_modified", "w_bregman_outputs_modified",
+    "mg_upd_scalar", "sb_caller_arrays_A", "sb_caller_arrays_B", "w_newton_other_domain", "w_bregman_other_domain", "w_newton_outputs_modified", "w_bregman_outputs_modified", "jac_arrays_h05", "jac_arrays_h1",
 ]
 # letters that can share state with each other (same object or same module-level default)
 GROUPS = {
     "jacobi": ["jac_h1", "jac_h05", "jac_params", "jac_3d"],
     "mg": ["mg_a", "mg_b"],
+    "jacobi_arrays": ["jac_arrays_h05", "jac_arrays_h1", "mg_het", "h1_mgarr_A"],
     "mg_het": ["mg_het"],
     "default_solver": ["h1_mu1", "h1_mu10", "h1_mu10_omega3", "h1_shapeB", "h1_rgb", "sb_mu05", "sb_mu2_ell1", "sb_shapeB", "tvd_het", "h1_3d_mu1"],
     "h1_explicit": ["h1_explicit_mu10", "h1_explicit_mu1", "h1_3d_explicit_mu1"],
